@@ -1,6 +1,29 @@
-(* ScanProofs.v — proofs about Model/Scan.v (C07, C09), for every instance of EdLaws and every pair of hashes. *)
-From MRS Require Export Proofs.DeriveProofs Proofs.SubaddrProofs Proofs.VarintProofs Model.Scan Spec.Sender.
+(* ScanProofs.v — proofs about Model/Scan.v (C07, C08 at scan level, C09), for every instance of EdLaws and every pair of
+   hashes.  Part 1: structure of the scan loop (no group law).  Part 2: soundness.  Part 3: completeness w.r.t. Spec/Sender.v. *)
+From MRS Require Export Proofs.DeriveProofs Proofs.SubaddrProofs Proofs.VarintProofs Proofs.EcdhProofs Model.Scan Spec.Sender.
+From Coq Require Import Sorted.
 Open Scope Z_scope.
+
+(* ---- lists ------------------------------------------------------------------------------------------------------------ *)
+Lemma uncons_spec {A} (l : list A) : uncons l = (nth_error l 0, tl l).
+Proof. destruct l; reflexivity. Qed.
+
+Lemma nth_error_tl {A} (l : list A) k : nth_error (tl l) k = nth_error l (S k).
+Proof. destruct l; [now destruct k|reflexivity]. Qed.
+
+Lemma range_list_in lo hi x : In x (range_list lo hi) <-> (lo <= x < hi)%N.
+Proof.
+  unfold range_list. rewrite in_map_iff. split.
+  - intros (k & <- & Hk). apply in_seq in Hk. lia.
+  - intros Hx. exists (N.to_nat (x - lo)). split; [lia|]. apply in_seq. lia.
+Qed.
+
+Lemma index_grid_in majs mins i : In i (index_grid majs mins) <-> In (fst i) majs /\ In (snd i) mins.
+Proof.
+  unfold index_grid. rewrite in_flat_map. destruct i as [x y]. cbn [fst snd]. split.
+  - intros (m & Hm & Hi). apply in_map_iff in Hi. destruct Hi as (n & Hn & Hi). injection Hn as -> ->. now split.
+  - intros [Hx Hy]. exists x. split; [exact Hx|]. apply in_map_iff. now exists y.
+Qed.
 
 Section ScanBasics.
 Context {E : EdOps}.
@@ -8,15 +31,232 @@ Variable Hs : hs_fun.
 Variable Hb : bytes -> bytes.
 
 (* the three entry points run the same scan *)
-Lemma entry_points_agree v S a b c d (t : tx) :
-  tx_check_outputs Hs Hb v S a b c d t =
-    prefix_check_outputs Hs Hb v S a b c d (tx_prefix t) (rct_base_of (tx_rct t)) /\
-  (forall tb, checker_new Hs v S a b c d = Ok tb ->
-     tx_check_outputs Hs Hb v S a b c d t = tx_check_outputs_with Hs Hb tb v S t /\
-     tx_check_outputs_with Hs Hb tb v S t = check_outputs_with Hs Hb tb v S (tx_prefix t) (rct_base_of (tx_rct t))).
+Lemma entry_points_agree v Sb a b c d (t : tx) :
+  tx_check_outputs Hs Hb v Sb a b c d t =
+    prefix_check_outputs Hs Hb v Sb a b c d (tx_prefix t) (rct_base_of (tx_rct t)) /\
+  (forall tb, checker_new Hs v Sb a b c d = Ok tb ->
+     tx_check_outputs Hs Hb v Sb a b c d t = tx_check_outputs_with Hs Hb tb v Sb t /\
+     tx_check_outputs_with Hs Hb tb v Sb t = check_outputs_with Hs Hb tb v Sb (tx_prefix t) (rct_base_of (tx_rct t))).
 Proof.
   split; [reflexivity|]. intros tb Htb. split; [|reflexivity].
   unfold tx_check_outputs, prefix_check_outputs, tx_check_outputs_with. now rewrite Htb.
 Qed.
+
+(* ---- the table ---------------------------------------------------------------------------------------------------------- *)
+Lemma lookup_some t k i : lookup t k = Some i -> In (k, i) t.
+Proof.
+  induction t as [|[k' j] r IH]; [discriminate|]. cbn [lookup].
+  destruct (lookup r k) as [j'|] eqn:Hl.
+  - intros H. injection H as ->. right. now apply IH.
+  - destruct (pk_eqb k' k) eqn:Hq; [|discriminate]. intros H. injection H as ->.
+    apply bytes_eqb_eq in Hq. subst. now left.
+Qed.
+
+Lemma lookup_complete t k i : In (k, i) t -> exists i', lookup t k = Some i' /\ In (k, i') t.
+Proof.
+  induction t as [|[k' j] r IH]; [contradiction|]. intros [H|H].
+  - injection H as -> ->. cbn [lookup]. destruct (lookup r k) as [j'|] eqn:Hl.
+    + exists j'. split; [reflexivity|]. right. now apply lookup_some.
+    + unfold pk_eqb. rewrite bytes_eqb_refl. exists i. split; [reflexivity|now left].
+  - destruct (IH H) as (i' & Hl & Hin). exists i'. cbn [lookup]. rewrite Hl. split; [reflexivity|now right].
+Qed.
+
+Lemma lookup_none t k : lookup t k = None -> forall i, ~ In (k, i) t.
+Proof. intros Hl i Hin. destruct (lookup_complete _ _ _ Hin) as (i' & H & _). congruence. Qed.
+
+Lemma table_rows_in v Sb idxs t k i : table_rows Hs v Sb idxs = Ok t -> In (k, i) t ->
+  In i idxs /\ get_spend_public_key Hs v Sb i = Ok k.
+Proof.
+  revert t. induction idxs as [|j r IH]; intros t Ht Hin.
+  - injection Ht as <-. contradiction.
+  - cbn [table_rows] in Ht. destruct (get_spend_public_key Hs v Sb j) as [kj|e|] eqn:Hj; cbn [bindr] in Ht; try discriminate.
+    destruct (table_rows Hs v Sb r) as [tr|e|] eqn:Hr; cbn [bindr] in Ht; try discriminate.
+    injection Ht as <-. destruct Hin as [H|H].
+    + injection H as -> ->. split; [now left|exact Hj].
+    + destruct (IH tr eq_refl H) as [H1 H2]. split; [now right|exact H2].
+Qed.
+
+Lemma table_rows_complete v Sb idxs t i : table_rows Hs v Sb idxs = Ok t -> In i idxs ->
+  exists k, get_spend_public_key Hs v Sb i = Ok k /\ In (k, i) t.
+Proof.
+  revert t. induction idxs as [|j r IH]; intros t Ht Hin; [contradiction|].
+  cbn [table_rows] in Ht. destruct (get_spend_public_key Hs v Sb j) as [kj|e|] eqn:Hj; cbn [bindr] in Ht; try discriminate.
+  destruct (table_rows Hs v Sb r) as [tr|e|] eqn:Hr; cbn [bindr] in Ht; try discriminate.
+  injection Ht as <-. destruct Hin as [->|H].
+  - exists kj. split; [exact Hj|now left].
+  - destruct (IH tr eq_refl H) as (k & H1 & H2). exists k. split; [exact H1|now right].
+Qed.
+
+Definition in_ranges (a b c d : N) (i : index) : Prop := (a <= fst i < b /\ c <= snd i < d)%N.
+
+Lemma checker_in v Sb a b c d t k i : checker_new Hs v Sb a b c d = Ok t -> In (k, i) t ->
+  in_ranges a b c d i /\ get_spend_public_key Hs v Sb i = Ok k.
+Proof.
+  intros Ht Hin. destruct (table_rows_in _ _ _ _ _ _ Ht Hin) as [H1 H2]. split; [|exact H2].
+  apply index_grid_in in H1. destruct H1 as [Hx Hy]. apply range_list_in in Hx. apply range_list_in in Hy. now split.
+Qed.
+
+Lemma checker_complete v Sb a b c d t i : checker_new Hs v Sb a b c d = Ok t -> in_ranges a b c d i ->
+  exists k, get_spend_public_key Hs v Sb i = Ok k /\ In (k, i) t.
+Proof.
+  intros Ht [Hx Hy]. apply (table_rows_complete _ _ _ _ _ Ht). apply index_grid_in. split; now apply range_list_in.
+Qed.
+
+(* ---- one key, one output --------------------------------------------------------------------------------------------------- *)
+Lemma pk_from_slice_id k k' : pk_from_slice k = Ok k' -> k' = k.
+Proof.
+  unfold pk_from_slice. destruct (negb _); [discriminate|]. destruct (decompress k); [|discriminate].
+  destruct (bytes_eqb _ _); [|discriminate]. intros H. now injection H.
+Qed.
+
+Lemma as_one_time_key_some tg P : as_one_time_key tg = Some P -> P = target_key tg /\ pk_from_slice P = Ok P.
+Proof.
+  unfold as_one_time_key. destruct (pk_from_slice (target_key tg)) as [k|e|] eqn:H; try discriminate.
+  intros Hk. injection Hk as ->. pose proof (pk_from_slice_id _ _ H) as ->. now split.
+Qed.
+
+Lemma check_key_inv t v Sb i o K idx key : check_key Hs Hb t v Sb i o K = Ok (Some (idx, key)) ->
+  key = K /\ exists P g c, as_one_time_key (o_target o) = Some P /\ from_key v Sb K = Ok g /\
+     check_view_tag Hb (o_target o) (snd g) i = true /\ candidate_spend Hs g i P = Ok c /\ lookup t c = Some idx.
+Proof.
+  unfold check_key. destruct (as_one_time_key (o_target o)) as [P|] eqn:HP; [|discriminate].
+  destruct (from_key v Sb K) as [g|e|] eqn:Hg; cbn [bindr]; try discriminate.
+  destruct (check_view_tag Hb (o_target o) (snd g) i) eqn:Htag; cbn [negb]; [|discriminate].
+  unfold check_with_key_generator. destruct (candidate_spend Hs g i P) as [c|e|] eqn:Hc; cbn [bindr]; try discriminate.
+  destruct (lookup t c) as [j|] eqn:Hl; [|discriminate].
+  intros H. injection H as <- <-. split; [reflexivity|]. exists P, g, c. auto.
+Qed.
+
+Lemma check_output_cases t v Sb i o main add idx key :
+  check_output Hs Hb t v Sb i o main add = Ok (Some (idx, key)) ->
+  (check_key Hs Hb t v Sb i o main = Ok (Some (idx, key)) /\ key = main) \/
+  (check_key Hs Hb t v Sb i o main = Ok None /\ add = Some key /\ check_key Hs Hb t v Sb i o key = Ok (Some (idx, key))).
+Proof.
+  unfold check_output. destruct (check_key Hs Hb t v Sb i o main) as [[[j k]|]|e|] eqn:Hm; cbn [bindr]; try discriminate.
+  - intros H. injection H as -> ->. left. split; [reflexivity|]. now destruct (check_key_inv _ _ _ _ _ _ _ _ Hm).
+  - destruct add as [a|]; [|discriminate]. intros H. right. split; [reflexivity|].
+    destruct (check_key_inv _ _ _ _ _ _ _ _ H) as [-> _]. now split.
+Qed.
+
+(* ---- the opening step -------------------------------------------------------------------------------------------------------- *)
+Definition no_rct (rct : option rct_base) : Prop := rct = None \/ exists bs, rct = Some bs /\ rb_type bs = RNull.
+
+Lemma opening_step_inv rct e c v Sb i key op : opening_step Hs Hb rct e c v Sb i key = SOk op ->
+  (op = None /\ no_rct rct) \/
+  (exists bs e0 c0 C a y C', rct = Some bs /\ rb_type bs <> RNull /\ e = Some e0 /\ c = Some c0 /\ decompress c0 = Some C /\
+       open_commitment Hs Hb e0 v Sb key i C = Ok (Some (a, y, C')) /\ op = Some (a, y, C')).
+Proof.
+  unfold opening_step. destruct rct as [bs|]; [|intros H; injection H as <-; left; split; [reflexivity|now left]].
+  destruct (rb_type bs) eqn:Ht;
+    try (intros H; injection H as <-; left; split; [reflexivity|right; now exists bs]);
+    (destruct e as [e0|]; [|discriminate]; destruct c as [c0|]; [|discriminate];
+     destruct (decompress c0) as [C|] eqn:HC; [|discriminate];
+     destruct (open_commitment Hs Hb e0 v Sb key i C) as [[[[a y] C']|]|er|] eqn:Ho; try discriminate;
+     intros H; injection H as <-; right; exists bs, e0, c0, C, a, y, C'; repeat split; auto; congruence).
+Qed.
+
+Lemma opening_step_errors rct e c v Sb i key er : opening_step Hs Hb rct e c v Sb i key = SErr er ->
+  er = MissingEcdhInfo /\ e = None \/ er = MissingCommitment /\ c = None \/ er = InvalidCommitment.
+Proof.
+  unfold opening_step. destruct rct as [bs|]; [|discriminate].
+  destruct (rb_type bs); try discriminate;
+    (destruct e as [e0|]; [|intros H; injection H as <-; now left]; destruct c as [c0|]; [|intros H; injection H as <-; right; now left];
+     destruct (decompress c0) as [C|]; [|intros H; injection H as <-; now right; right];
+     destruct (open_commitment Hs Hb e0 v Sb key i C) as [[o|]|er'|]; try discriminate; intros H; injection H as <-; now right; right).
+Qed.
+
+(* ---- the loop ------------------------------------------------------------------------------------------------------------------ *)
+Lemma scan_outputs_inv t v Sb rct main outs : forall i adds ecdhs outpks l,
+  scan_outputs Hs Hb t v Sb rct main i outs adds ecdhs outpks = SOk l ->
+  forall w, In w l -> exists k o,
+     nth_error outs k = Some o /\ ow_pos w = (i + N.of_nat k)%N /\ ow_out w = o /\
+     check_output Hs Hb t v Sb (ow_pos w) o main (nth_error adds k) = Ok (Some (ow_index w, ow_key w)) /\
+     opening_step Hs Hb rct (nth_error ecdhs k) (nth_error outpks k) v Sb (ow_pos w) (ow_key w) = SOk (ow_opening w).
+Proof.
+  induction outs as [|o rest IH]; intros i adds ecdhs outpks l H w Hw.
+  - injection H as <-. contradiction.
+  - cbn [scan_outputs] in H. rewrite !uncons_spec in H.
+    assert (Hrec : forall l', scan_outputs Hs Hb t v Sb rct main (i + 1)%N rest (tl adds) (tl ecdhs) (tl outpks) = SOk l' ->
+                   In w l' -> exists k o0, nth_error (o :: rest) k = Some o0 /\ ow_pos w = (i + N.of_nat k)%N /\ ow_out w = o0 /\
+                     check_output Hs Hb t v Sb (ow_pos w) o0 main (nth_error adds k) = Ok (Some (ow_index w, ow_key w)) /\
+                     opening_step Hs Hb rct (nth_error ecdhs k) (nth_error outpks k) v Sb (ow_pos w) (ow_key w) = SOk (ow_opening w)).
+    { intros l' Hl' Hin. destruct (IH _ _ _ _ _ Hl' w Hin) as (k & o0 & H1 & H2 & H3 & H4 & H5).
+      exists (S k), o0. rewrite !nth_error_tl in *. repeat split; auto. rewrite H2. lia. }
+    destruct (check_output Hs Hb t v Sb i o main (nth_error adds 0)) as [[[idx key]|]|e|] eqn:Hc; try discriminate.
+    + destruct (opening_step Hs Hb rct (nth_error ecdhs 0) (nth_error outpks 0) v Sb i key) as [op|e|] eqn:Ho; try discriminate.
+      destruct (scan_outputs Hs Hb t v Sb rct main (i + 1)%N rest (tl adds) (tl ecdhs) (tl outpks)) as [l'|e|] eqn:Hl; try discriminate.
+      injection H as <-. destruct Hw as [<-|Hw]; [|now apply (Hrec l')].
+      exists 0%nat, o. cbn [ow_pos ow_out ow_index ow_key ow_opening nth_error]. repeat split; auto. lia.
+    + now apply (Hrec l).
+Qed.
+
+Lemma scan_outputs_complete t v Sb rct main outs : forall i adds ecdhs outpks l,
+  scan_outputs Hs Hb t v Sb rct main i outs adds ecdhs outpks = SOk l ->
+  forall k o idx key, nth_error outs k = Some o ->
+    check_output Hs Hb t v Sb (i + N.of_nat k)%N o main (nth_error adds k) = Ok (Some (idx, key)) ->
+    exists op, In (mk_owned (i + N.of_nat k)%N o idx key op) l.
+Proof.
+  induction outs as [|o rest IH]; intros i adds ecdhs outpks l H k o' idx key Hk Hc; [now destruct k|].
+  cbn [scan_outputs] in H. rewrite !uncons_spec in H. destruct k as [|k].
+  - cbn [nth_error] in Hk. injection Hk as <-. replace (i + N.of_nat 0)%N with i in * by lia. rewrite Hc in H.
+    destruct (opening_step Hs Hb rct (nth_error ecdhs 0) (nth_error outpks 0) v Sb i key) as [op|e|]; try discriminate.
+    destruct (scan_outputs Hs Hb t v Sb rct main (i + 1)%N rest (tl adds) (tl ecdhs) (tl outpks)) as [l'|e|]; try discriminate.
+    injection H as <-. exists op. now left.
+  - cbn [nth_error] in Hk. replace (i + N.of_nat (S k))%N with (i + 1 + N.of_nat k)%N in * by lia.
+    rewrite <- nth_error_tl in Hc.
+    destruct (check_output Hs Hb t v Sb i o main (nth_error adds 0)) as [[[idx0 key0]|]|e|]; try discriminate.
+    + destruct (opening_step Hs Hb rct (nth_error ecdhs 0) (nth_error outpks 0) v Sb i key0) as [op|e|]; try discriminate.
+      destruct (scan_outputs Hs Hb t v Sb rct main (i + 1)%N rest (tl adds) (tl ecdhs) (tl outpks)) as [l'|e|] eqn:Hl; try discriminate.
+      injection H as <-. destruct (IH _ _ _ _ _ Hl k o' idx key Hk Hc) as (op' & Hin). exists op'. now right.
+    + exact (IH _ _ _ _ _ H k o' idx key Hk Hc).
+Qed.
+
+Lemma scan_outputs_none t v Sb rct main outs i adds ecdhs outpks l k o :
+  scan_outputs Hs Hb t v Sb rct main i outs adds ecdhs outpks = SOk l ->
+  nth_error outs k = Some o ->
+  check_output Hs Hb t v Sb (i + N.of_nat k)%N o main (nth_error adds k) = Ok None ->
+  forall w, In w l -> ow_pos w <> (i + N.of_nat k)%N.
+Proof.
+  intros H Hk Hc w Hw Hpos. destruct (scan_outputs_inv _ _ _ _ _ _ _ _ _ _ _ H w Hw) as (k' & o' & H1 & H2 & H3 & H4 & _).
+  assert (k' = k) by lia. subst k'. rewrite Hk in H1. injection H1 as <-. rewrite Hpos in H4. congruence.
+Qed.
+
+(* positions are reported in increasing order, each at most once *)
+Lemma scan_outputs_sorted t v Sb rct main outs : forall i adds ecdhs outpks l,
+  scan_outputs Hs Hb t v Sb rct main i outs adds ecdhs outpks = SOk l ->
+  StronglySorted N.lt (map ow_pos l).
+Proof.
+  induction outs as [|o rest IH]; intros i adds ecdhs outpks l H.
+  - injection H as <-. constructor.
+  - cbn [scan_outputs] in H. rewrite !uncons_spec in H.
+    destruct (check_output Hs Hb t v Sb i o main (nth_error adds 0)) as [[[idx key]|]|e|]; try discriminate.
+    + destruct (opening_step Hs Hb rct (nth_error ecdhs 0) (nth_error outpks 0) v Sb i key) as [op|e|]; try discriminate.
+      destruct (scan_outputs Hs Hb t v Sb rct main (i + 1)%N rest (tl adds) (tl ecdhs) (tl outpks)) as [l'|e|] eqn:Hl; try discriminate.
+      injection H as <-. cbn [map ow_pos]. constructor; [now apply (IH _ _ _ _ _ Hl)|].
+      apply Forall_forall. intros p Hp. apply in_map_iff in Hp. destruct Hp as (w & <- & Hw).
+      destruct (scan_outputs_inv _ _ _ _ _ _ _ _ _ _ _ Hl w Hw) as (k & _ & _ & H2 & _). lia.
+    + now apply (IH _ _ _ _ _ H).
+Qed.
+
+(* ---- check_outputs_with unfolded ---------------------------------------------------------------------------------------------- *)
+Definition adds_of (fields : list subfield) : list bytes :=
+  match tx_additional_pubkeys fields with Some ks => ks | None => [] end.
+Definition ecdhs_of (rct : option rct_base) : list ecdh := match rct with Some b => rb_ecdh b | None => [] end.
+Definition outpks_of (rct : option rct_base) : list bytes := match rct with Some b => rb_out_pk b | None => [] end.
+
+Lemma prefix_scan_inv v Sb a b c d p rct l : prefix_check_outputs Hs Hb v Sb a b c d p rct = SOk l ->
+  exists t fields main,
+    checker_new Hs v Sb a b c d = Ok t /\ raw_try_parse valid_pk_b (extra p) = Ok fields /\ tx_pubkey fields = Some main /\
+    scan_outputs Hs Hb t v Sb rct main 0%N (outputs p) (adds_of fields) (ecdhs_of rct) (outpks_of rct) = SOk l.
+Proof.
+  unfold prefix_check_outputs. destruct (checker_new Hs v Sb a b c d) as [t|e|]; try discriminate.
+  unfold check_outputs_with. destruct (raw_try_parse valid_pk_b (extra p)) as [fields|e|]; try discriminate.
+  destruct (tx_pubkey fields) as [main|] eqn:Hm; [|discriminate]. intros H. now exists t, fields, main.
+Qed.
+
+Lemma prefix_scan_no_key v Sb a b c d p rct t fields : checker_new Hs v Sb a b c d = Ok t ->
+  raw_try_parse valid_pk_b (extra p) = Ok fields -> tx_pubkey fields = None ->
+  prefix_check_outputs Hs Hb v Sb a b c d p rct = SErr NoTxPublicKey.
+Proof. intros Ht Hf Hm. unfold prefix_check_outputs, check_outputs_with. now rewrite Ht, Hf, Hm. Qed.
 
 End ScanBasics.
